@@ -587,6 +587,79 @@ fn alpha_law(c: &mut Case, cx: &Ctx, d: u8, src: &RgbaImage, dec: &RgbaImage) {
     }
 }
 
+
+/// Laws for the levels below level 0. Their source is the library's own resampling of the source image, so nothing is demanded
+/// that depends on how the resampler works: a resampling filter without negative weights (nearest, triangle, gaussian) - and any
+/// normalised filter on a constant plane - yields values between the smallest and the largest source value of the channel, and
+/// the nearest filter yields values that occur in the source. Returns false after reporting a violation.
+fn source_range_ok(filter: &str, lo: u8, hi: u8) -> bool {
+    lo == hi || matches!(filter, "nearest" | "triangle" | "gaussian")
+}
+
+fn lower_level_alpha_law(c: &mut Case, cx: &Ctx, d: u8, level: usize, src: &RgbaImage, dec: &RgbaImage) -> bool {
+    let levels: u32 = if d == 0 { 0 } else { (1u32 << d) - 1 };
+    let ex = |q: u32| if levels == 0 { 255u8 } else { (q * 255 / levels) as u8 };
+    let mut present = [false; 256];
+    for p in src.pixels() {
+        present[p[3] as usize] = true;
+    }
+    let lo = (0..256usize).find(|&a| present[a]).unwrap_or(0) as u8;
+    let hi = (0..256usize).rev().find(|&a| present[a]).unwrap_or(255) as u8;
+    if d == 0 {
+        if let Some((i, p)) = dec.pixels().enumerate().find(|(_, p)| p[3] != 255) {
+            c.violate(cx.sig("raw1-alpha", "depth0|lower-level|decoded-not-opaque"), format!("alpha depth 0 but pixel {i} of level {level} decodes with alpha {}", p[3]), json!({"level": level, "pixel": i, "decoded_alpha": p[3]}));
+            return false;
+        }
+        c.count("lower_level_alpha_checks_d0", dec.pixels().len() as u64);
+        return true;
+    }
+    // representable levels neighbouring the extreme source alphas
+    let least = ex(lo as u32 * levels / 255);
+    let most = ex((hi as u32 * levels).div_ceil(255));
+    // decoded values that quantise a source alpha (floor or ceil neighbour of some alpha present in the source)
+    let mut reachable = [false; 256];
+    for a in 0..256usize {
+        if present[a] {
+            reachable[ex(a as u32 * levels / 255) as usize] = true;
+            reachable[ex((a as u32 * levels).div_ceil(255)) as usize] = true;
+        }
+    }
+    let range_law = source_range_ok(cx.spec.filter, lo, hi);
+    let member_law = cx.spec.filter == "nearest";
+    for (i, p) in dec.pixels().enumerate() {
+        let got = p[3];
+        // every decoded alpha is one of the 2^d representable levels
+        if (got as u32 * levels) % 255 != 0 && ex((got as u32 * levels + 127) / 255) != got {
+            c.violate(cx.sig("raw1-alpha", &format!("depth{d}|lower-level|not-a-representable-level")), format!("alpha depth {d}: pixel {i} of level {level} decodes with alpha {got}, which is not one of the {} representable levels", levels + 1), json!({"level": level, "pixel": i, "decoded_alpha": got}));
+            return false;
+        }
+        if range_law && (got < least || got > most) {
+            c.violate(
+                cx.sig("raw1-alpha", &format!("depth{d}|lower-level|outside-source-alpha-range")),
+                format!("alpha depth {d}, filter {}: pixel {i} of level {level} decodes with alpha {got}; the source alphas span {lo}..={hi}, whose quantisations span {least}..={most}", cx.spec.filter),
+                json!({"level": level, "pixel": i, "decoded_alpha": got, "source_alpha_min": lo, "source_alpha_max": hi, "least": least, "most": most}),
+            );
+            return false;
+        }
+        if member_law && !reachable[got as usize] {
+            c.violate(
+                cx.sig("raw1-alpha", &format!("depth{d}|lower-level|nearest-not-a-source-alpha")),
+                format!("alpha depth {d}, nearest filter: pixel {i} of level {level} decodes with alpha {got}, which is not the quantisation of any alpha occurring in the source"),
+                json!({"level": level, "pixel": i, "decoded_alpha": got}),
+            );
+            return false;
+        }
+    }
+    c.count(&format!("lower_level_alpha_checks_d{d}"), dec.pixels().len() as u64);
+    if range_law {
+        c.count("lower_level_alpha_range_checks", dec.pixels().len() as u64);
+    }
+    if member_law {
+        c.count("lower_level_alpha_membership_checks", dec.pixels().len() as u64);
+    }
+    true
+}
+
 fn run_case(c: &mut Case, spec: &Spec, rng: &mut Rng) {
     let t = spec.tgt;
     let tname = t.name();
@@ -916,6 +989,37 @@ fn run_case(c: &mut Case, spec: &Spec, rng: &mut Rng) {
                 } else {
                     c.count("raw3_images_exact", 1);
                 }
+                // the levels below: every channel inside what a resampling of the source channel can give
+                let mut lo = [255u8; 4];
+                let mut hi = [0u8; 4];
+                for p in src.pixels() {
+                    for k in 0..4 {
+                        lo[k] = lo[k].min(p[k]);
+                        hi[k] = hi[k].max(p[k]);
+                    }
+                }
+                'levels: for (li, &(a, b)) in chain.iter().enumerate().take(y_levels).skip(1) {
+                    let Ok(Ok(dl)) = trap(|| blp_to_image(&y, li)) else { break };
+                    let dl = dl.to_rgba8();
+                    if dl.dimensions() != (a, b) {
+                        break;
+                    }
+                    for k in 0..4 {
+                        if !source_range_ok(spec.filter, lo[k], hi[k]) {
+                            continue;
+                        }
+                        c.count("raw3_lower_level_channel_range_checks", dl.pixels().len() as u64);
+                        if let Some((i, p)) = dl.pixels().enumerate().find(|(_, p)| p[k] < lo[k] || p[k] > hi[k]) {
+                            let ch = ["r", "g", "b", "a"][k];
+                            c.violate(
+                                format!("raw3-pixels|{}|lower-level|outside-source-range|{}", t.ver_name(), if k == 3 { "alpha" } else { "colour" }),
+                                format!("raw BGRA, filter {}: pixel {i} of level {li} decodes with {ch}={}; the source values of that channel span {}..={}", spec.filter, p[k], lo[k], hi[k]),
+                                json!({"level": li, "pixel": i, "channel": ch, "decoded": p[k], "source_min": lo[k], "source_max": hi[k]}),
+                            );
+                            break 'levels;
+                        }
+                    }
+                }
                 // informative only: the stored bytes really are B,G,R,A
                 if let Some(&(o, s)) = table_levels.first() {
                     if o + s <= flen && s == 4 * src.pixels().len() as u64 {
@@ -962,6 +1066,41 @@ fn run_case(c: &mut Case, spec: &Spec, rng: &mut Rng) {
                         c.count("raw1_index_checks", n as u64);
                     }
                     alpha_law(c, &cx, d, &src, &dec);
+                    // the levels below: colours from the same palette (the entry the level's stored index selects), alpha inside
+                    // what a resampling of the source alpha can give
+                    for (li, &(a, b)) in chain.iter().enumerate().take(y_levels).skip(1) {
+                        let Ok(Ok(dl)) = trap(|| blp_to_image(&y, li)) else { break };
+                        let dl = dl.to_rgba8();
+                        if dl.dimensions() != (a, b) {
+                            break; // reported under mip-chain above
+                        }
+                        c.count("raw1_lower_levels_checked", 1);
+                        let nl = (a as usize) * (b as usize);
+                        let idx_l: Option<&[u8]> = if t.ver == 0 { externals.get(li).and_then(|m| m.get(..nl)) } else { table_levels.get(li).and_then(|&(o, _)| bytes.get(o as usize..o as usize + nl)) };
+                        let mut ok = true;
+                        for (i, p) in dl.pixels().enumerate() {
+                            let rgb = [p[0], p[1], p[2]];
+                            if !set.contains(&rgb) {
+                                c.violate(cx.sig("raw1-colour-not-in-palette", &format!("a{d}|lower-level")), format!("pixel {i} of level {li} decodes with colour {rgb:?} which is not one of the 256 palette entries stored in the file"), json!({"level": li, "pixel": i, "colour": rgb}));
+                                ok = false;
+                                break;
+                            }
+                            if let Some(ix) = idx_l {
+                                if pal[ix[i] as usize] != rgb {
+                                    c.violate(cx.sig("raw1-colour-not-the-indexed-entry", &format!("a{d}|lower-level")), format!("pixel {i} of level {li} decodes with colour {rgb:?} but its stored index {} selects {:?}", ix[i], pal[ix[i] as usize]), json!({"level": li, "pixel": i, "colour": rgb, "index": ix[i]}));
+                                    ok = false;
+                                    break;
+                                }
+                            }
+                        }
+                        if !ok {
+                            break;
+                        }
+                        c.count("raw1_lower_level_palette_checks", nl as u64);
+                        if !lower_level_alpha_law(c, &cx, d, li, &src, &dl) {
+                            break;
+                        }
+                    }
                 }
             }
         }
